@@ -81,18 +81,23 @@ def _v_strategy(mech, params):
         return st.one_of(plain, st.sampled_from([-200.0, 200.0, 0.0, -100.0, 100.0]))
 
     def near(t):
-        vs, mode, k, sign = t
+        vs, mode, k, sign, mant = t
         if mode == "exact":
             return float(vs)
         if mode == "ulp":
             return _ulps(vs, sign * k)
-        return float(vs + sign * 10.0 ** (-k))
+        if mode == "pow":
+            return float(vs + sign * 10.0 ** (-k))
+        # "window": any distance between 1e-k and 1e-(k-1), so that the whole neighbourhood in which a guard
+        # switches to a series expansion (|x| < 1e-5 or so) is covered, not only the powers of ten
+        return float(vs + sign * mant * 10.0 ** (-k))
 
     directed = st.tuples(
         st.sampled_from(sing),
-        st.sampled_from(["exact", "ulp", "pow"]),
+        st.sampled_from(["exact", "ulp", "pow", "window", "window"]),
         st.integers(1, 15),
         st.sampled_from([-1, 1]),
+        st.floats(1.0, 10.0, allow_nan=False),
     ).map(near)
     return st.one_of(plain, directed)
 
